@@ -51,7 +51,7 @@ func loopCounter(l *Loop, tm *Termer) (bound *Term, phi *ssa.Phi, ok bool) {
 
 // C20 — experiment protocol.
 func C20(p *Prog, r *Run) {
-	r.Explanation = "Decided on Experiment.Execute by flag-sensitive path search over its SSA control-flow graph (two loops; the observer's nil-ness is tracked along each path): per trial iteration exactly one NewPopulation(start genome, options) before the generation loop, TrialRunStarted exactly once before the first generation, the trial recorded exactly once at e.Trials[run] on every non-error path, TrialRunFinished exactly once on every non-error path and never followed by EpochEvaluated; per generation iteration the context test precedes the evaluation, exactly one GenerationEvaluate whose error returns at once, NextEpoch only under !Solved, at most once, its error returned, append-then-EpochEvaluated exactly once in that order, under Solved the iteration leaves the loop; counters run 0,1,… below NumRuns / NumGenerations; the executor selection covers every EpochExecutorType constant and errors otherwise. Assumption: the observer and NextEpoch do not flip generation.Solved between its two reads. Not decided: what the evaluator, observer and executor do."
+	r.Explanation = "Decided on Experiment.Execute by flag-sensitive path search over its SSA control-flow graph (two loops; the observer's nil-ness is tracked along each path): per trial iteration exactly one NewPopulation(start genome, options) before the generation loop, TrialRunStarted exactly once before the first generation, the trial recorded exactly once at e.Trials[run] on every non-error path, TrialRunFinished exactly once on every non-error path and never followed by EpochEvaluated; per generation iteration the context test precedes the evaluation, exactly one GenerationEvaluate whose error returns at once, NextEpoch only under !Solved, at most once, its error returned, append-then-EpochEvaluated exactly once in that order, under Solved the iteration leaves the loop; counters run 0,1,… below NumRuns / NumGenerations, tested in the effect-free loop condition (any spelling of the test; the loop condition may additionally test a flag that is raised only under generation.Solved, nothing else), a break out of the generation loop only under Solved; the record handed to the evaluator is allocated or reset in every generation so that its Solved flag is false at the call; the executor selection covers every EpochExecutorType constant and errors otherwise. Assumption: the observer and NextEpoch do not flip generation.Solved between its two reads. Not decided: what the evaluator, observer and executor do."
 	ex := p.Func(PkgE, "Experiment.Execute")
 	r.Fn(FuncName(ex))
 	tm := NewTermer(ex)
@@ -98,22 +98,40 @@ func C20(p *Prog, r *Run) {
 		return ok && tm.Of(ret.Results[0]).Op != "nil"
 	}
 	_ = isErrReturn
-	// iterEnd: the iteration of loop l completes normally = control returns to the header or leaves the loop (not by an error return)
-	// (continue) or reaches the block the loop condition exits to (exhaustion or break). Paths that end in a
-	// return inside the body are the error paths; C20.1 checks separately that those returns carry a non-nil error.
-	exitBlock := func(l *Loop) *ssa.BasicBlock {
-		for _, s := range l.Header.Succs {
-			if !l.Blocks[s] {
-				return s
+	// Loop model (robust_c20.go): the loop condition is the effect-free region R behind the header; an iteration
+	// starts on an edge from R into the body and completes normally when control is back at the header or leaves
+	// the loop from the body towards code of the surrounding trial loop (break). Leaving Execute from the body is
+	// an error path: C20.1 checks separately that the returns reachable that way carry a non-nil error. The exits
+	// taken from R (loop condition false) are no iteration at all; C20.1 checks that each of them is justified
+	// (counter exhausted / solved flag).
+	cOuter, cInner := newC20Loop(outer), newC20Loop(inner)
+	modelOf := func(l *Loop) *c20Loop {
+		if l == inner {
+			return cInner
+		}
+		return cOuter
+	}
+	iterEnd := func(l *Loop) func(a, b *ssa.BasicBlock) bool {
+		c := modelOf(l)
+		return func(a, b *ssa.BasicBlock) bool {
+			return b == l.Header || (l.Blocks[a] && !c.R[a] && !l.Blocks[b] && outer.Blocks[b])
+		}
+	}
+	// fromIterStart runs the query from every edge on which an iteration of l starts; first witness wins.
+	fromIterStart := func(l *Loop, q PathQuery) []string {
+		c := modelOf(l)
+		userAvoid := q.AvoidEdge
+		q.AvoidEdge = func(a, b *ssa.BasicBlock) bool {
+			// a path that comes back to the loop condition and leaves through it is no longer inside an iteration
+			return c.IsCondExit(a, b) || (userAvoid != nil && userAvoid(a, b))
+		}
+		for _, e := range c.Starts() {
+			q.StartEdge = e
+			if path := FindPath(p, q); path != nil {
+				return path
 			}
 		}
 		return nil
-	}
-	iterEnd := func(l *Loop) func(a, b *ssa.BasicBlock) bool {
-		xb := exitBlock(l)
-		return func(a, b *ssa.BasicBlock) bool {
-			return b == l.Header || (b == xb && a != l.Header) || (b == xb && a == l.Header && false)
-		}
 	}
 	// exactlyOnce: within one iteration of loop l, event occurs exactly once on every non-error path.
 	exactlyOnce := func(l *Loop, what string, ev func(ssa.Instruction) bool, withObserver bool, label string) {
@@ -127,9 +145,7 @@ func C20(p *Prog, r *Run) {
 			nn = []ssa.Value{observer}
 		}
 		// at least once: no path header -> iteration end avoiding the event
-		first := l.Header.Instrs[0]
-		_ = first
-		path := FindPath(p, PathQuery{Fn: ex, StartEdge: [2]*ssa.BasicBlock{l.Header, bodySucc(l)}, TargetEdge: iterEnd(l), Avoid: ev, NonNil: nn, Explored: &r.PathsExplored})
+		path := fromIterStart(l, PathQuery{Fn: ex, TargetEdge: iterEnd(l), Avoid: ev, NonNil: nn, Explored: &r.PathsExplored})
 		if path != nil {
 			r.Bad(label+".at-least-once", p.Pos(sites[0].Pos()), "an iteration can complete without "+what, path...)
 		} else {
@@ -178,10 +194,24 @@ func C20(p *Prog, r *Run) {
 
 	r.Rule("C20.1", "per trial: one fresh population before the generation loop; TrialRunStarted once before it; the trial recorded once; TrialRunFinished exactly once on every non-error path, after the last EpochEvaluated", func() {
 		// every return inside the trial loop is an error return (so that 'non-error path' = reaches the end of the iteration)
-		xb := exitBlock(outer)
+		// "inside the trial loop" = reachable from an edge that leaves the loop from its body (not from its loop condition)
+		fromBody := map[*ssa.BasicBlock]bool{}
+		var stack []*ssa.BasicBlock
+		for _, e := range cOuter.BodyExits() {
+			stack = append(stack, e[1])
+		}
+		for len(stack) > 0 {
+			b := stack[len(stack)-1]
+			stack = stack[:len(stack)-1]
+			if fromBody[b] || outer.Blocks[b] {
+				continue
+			}
+			fromBody[b] = true
+			stack = append(stack, b.Succs...)
+		}
 		for _, b := range ex.Blocks {
 			ret, ok := b.Instrs[len(b.Instrs)-1].(*ssa.Return)
-			if !ok || !outer.Header.Dominates(b) || (xb != nil && (xb == b || xb.Dominates(b))) {
+			if !ok || !fromBody[b] {
 				continue
 			}
 			rt := tm.Of(ret.Results[0])
@@ -199,7 +229,7 @@ func C20(p *Prog, r *Run) {
 		for _, s := range findAll(isInvoke("TrialRunStarted")) {
 			r.Check(!inner.Blocks[s.Block()], "trial.started.place", p.Pos(s.Pos()), "outside the generation loop", "TrialRunStarted is called inside the generation loop")
 			// before the first generation: no path outer header -> inner header avoiding it (observer present)
-			path := FindPath(p, PathQuery{Fn: ex, StartEdge: [2]*ssa.BasicBlock{outer.Header, bodySucc(outer)}, TargetEdge: toHeader(inner.Header), Avoid: isInvoke("TrialRunStarted"), NonNil: []ssa.Value{observer}, Explored: &r.PathsExplored})
+			path := fromIterStart(outer, PathQuery{Fn: ex, TargetEdge: toHeader(inner.Header), Avoid: isInvoke("TrialRunStarted"), NonNil: []ssa.Value{observer}, Explored: &r.PathsExplored})
 			if path != nil {
 				r.Bad("trial.started.before-generations", p.Pos(s.Pos()), "the generation loop can start before TrialRunStarted", path...)
 			} else {
@@ -209,7 +239,7 @@ func C20(p *Prog, r *Run) {
 		exactlyOnce(outer, "the store e.Trials[run] = trial", isTrialStore, false, "trial.recorded")
 		for _, s := range findAll(isTrialStore) {
 			idx := s.(*ssa.Store).Addr.(*ssa.IndexAddr).Index
-			_, ph, ok := loopCounter(outer, tm)
+			_, ph, _, ok := cOuter.Counter(tm)
 			r.Check(ok && idx == ssa.Value(ph), "trial.recorded.index", p.Pos(s.Pos()), "recorded at the trial counter's index", "the trial is recorded at index "+tm.Of(idx).String()+", not at the trial counter")
 			r.Check(!inner.Blocks[s.Block()], "trial.recorded.place", p.Pos(s.Pos()), "after the generation loop", "the trial is recorded inside the generation loop (before its generations are complete)")
 		}
@@ -237,9 +267,48 @@ func C20(p *Prog, r *Run) {
 			field string
 			label string
 		}{{outer, "NumRuns", "trial.counter"}, {inner, "NumGenerations", "generation.counter"}} {
-			b, _, ok := loopCounter(lc.l, tm)
-			r.Check(ok && b.Op == "field" && b.Name == lc.field, lc.label, p.Pos(lc.l.Header.Instrs[0].Pos()), "counter runs 0,1,… < options."+lc.field,
-				fmt.Sprintf("loop counter is not 0,1,… < %s (bound %v)", lc.field, b))
+			c := modelOf(lc.l)
+			b, _, cexit, ok := c.Counter(tm)
+			r.Check(ok && b.Op == "field" && b.Name == lc.field, lc.label, p.Pos(lc.l.Header.Instrs[0].Pos()), "counter runs 0,1,… < options."+lc.field+", tested in the loop condition before anything of the iteration happens",
+				fmt.Sprintf("loop counter is not 0,1,… < %s tested in the loop condition (bound %v)", lc.field, b))
+			// every other way the loop condition can end the loop needs a reason the property allows:
+			// none for the trial loop; for the generation loop a flag raised only under generation.Solved.
+			var bad []string
+			for _, e := range c.CondExits() {
+				if ok && e == cexit {
+					continue
+				}
+				if lc.l == inner {
+					fine, why := c20SolvedFlagExit(tm, inner, e[0], e[1], findAll(isInvoke("GenerationEvaluate")))
+					if fine {
+						continue
+					}
+					bad = append(bad, fmt.Sprintf("block %d -> %d (%s): %s", e[0].Index, e[1].Index, p.Pos(e[0].Instrs[len(e[0].Instrs)-1].Pos()), why))
+					continue
+				}
+				bad = append(bad, fmt.Sprintf("block %d -> %d (%s)", e[0].Index, e[1].Index, p.Pos(e[0].Instrs[len(e[0].Instrs)-1].Pos())))
+			}
+			r.Check(len(bad) == 0, lc.label+".only-exit", p.Pos(lc.l.Header.Instrs[0].Pos()), "the loop condition ends the loop only when the counter is exhausted"+map[bool]string{true: " or a flag raised under generation.Solved is set", false: ""}[lc.l == inner],
+				"the loop condition can end the loop for another reason than the exhausted counter: "+strings.Join(bad, "; "))
+		}
+		// a break out of the generation loop is taken only under generation.Solved
+		for _, e := range cInner.BodyExits() {
+			if !outer.Blocks[e[1]] {
+				continue // leaves Execute: error path, see trial.returns-inside-loop
+			}
+			guarded := false
+			for _, g := range condsAt(e[0], e[1]) {
+				if c20SolvedGuard(tm, g, true) {
+					guarded = true
+				}
+			}
+			pos := token.NoPos
+			for _, in := range e[0].Instrs {
+				if in.Pos().IsValid() {
+					pos = in.Pos()
+				}
+			}
+			r.Check(guarded, "generation.break.only-solved", p.Pos(pos), "the generation loop is left early only under generation.Solved", "the generation loop is left early on a path that is not guarded by generation.Solved: fewer generations than configured are evaluated")
 		}
 	})
 
@@ -250,13 +319,84 @@ func C20(p *Prog, r *Run) {
 		exactlyOnce(inner, "GenerationEvaluate", ge, false, "generation.evaluate")
 		exactlyOnce(inner, "append(trial.Generations, generation)", isAppendGen, false, "generation.append")
 		exactlyOnce(inner, "EpochEvaluated", ee, true, "generation.notified")
+		// the record handed to the evaluator is fresh in every generation: its Solved flag is false when the evaluator is
+		// called (the bundled evaluators only ever raise it), so "solved" below means "reported solved by this evaluation".
+		// Established either by the allocation of the record inside the generation loop (zeroed each time it executes), or
+		// by a whole-value reset from a fresh literal / a `Solved = false` store inside the loop that dominates the call;
+		// nothing else may write Solved or receive the record before the call.
+		solvedFld := p.Field(PkgE, "Generation", "Solved")
+		for _, s := range findAll(ge) {
+			args := s.(ssa.CallInstruction).Common().Args
+			rec := c20AllocOf(args[len(args)-1])
+			if rec == nil || rec.Referrers() == nil {
+				r.Undecided("generation.record.fresh", p.Pos(s.Pos()), "cannot identify the allocation of the generation record passed to GenerationEvaluate: "+tm.Of(args[len(args)-1]).String())
+				continue
+			}
+			established := inner.Blocks[rec.Block()] && c20After(rec, s)
+			why := ""
+			note := func(msg string, in ssa.Instruction) {
+				if why == "" {
+					why = msg + " @" + p.Pos(in.Pos())
+				}
+			}
+			for _, ref := range *rec.Referrers() {
+				switch x := ref.(type) {
+				case *ssa.Store:
+					if x.Addr != ssa.Value(rec) {
+						note("the record's address is stored away", x)
+						continue
+					}
+					fresh := c20FreshStructValue(x.Val, inner, solvedFld)
+					if fresh && inner.Blocks[x.Block()] && c20After(x, s) {
+						established = true
+					} else if !fresh && !c20After(s, x) {
+						note("the record is overwritten before the evaluation with a value that is not a fresh literal", x)
+					}
+				case *ssa.FieldAddr:
+					if fieldOf(x.X.Type(), x.Field) != solvedFld || x.Referrers() == nil {
+						continue
+					}
+					for _, rr := range *x.Referrers() {
+						switch y := rr.(type) {
+						case *ssa.Store:
+							if y.Addr == ssa.Value(x) && IsConstBool(y.Val, false) {
+								if inner.Blocks[y.Block()] && c20After(y, s) {
+									established = true
+								}
+							} else if !c20After(s, y) {
+								note("Solved is written before the evaluation", y)
+							}
+						case *ssa.UnOp, *ssa.DebugRef:
+						default:
+							if !c20After(s, rr) {
+								note("the address of Solved is used before the evaluation", rr)
+							}
+						}
+					}
+				case *ssa.UnOp, *ssa.DebugRef:
+				case ssa.CallInstruction:
+					if ref != s && !c20After(s, ref) {
+						note("the record is handed to another call before the evaluation", ref)
+					}
+				default:
+					if !c20After(s, ref) {
+						note("the record escapes before the evaluation", ref)
+					}
+				}
+			}
+			if !established {
+				why = "the record is neither allocated nor reset inside the generation loop before the call (allocated @" + p.Pos(rec.Pos()) + ")"
+			}
+			r.Check(established && why == "", "generation.record.fresh", p.Pos(s.Pos()), "the evaluator receives a record whose Solved flag is false: allocated or reset in every generation before the call",
+				"the generation record handed to the evaluator is not fresh in every generation: "+why+"; Solved (and winner data) left from an earlier generation or trial ends later trials after their first generation")
+		}
 		// context test precedes the evaluation
 		sel := findAll(isSelect)
 		if len(sel) == 0 {
 			r.Bad("generation.ctx", p.Pos(ex.Pos()), "the generation loop never tests the context for cancellation")
 		}
 		for _, s := range findAll(ge) {
-			path := FindPath(p, PathQuery{Fn: ex, StartEdge: [2]*ssa.BasicBlock{inner.Header, bodySucc(inner)}, Target: ge, Avoid: isSelect, Explored: &r.PathsExplored})
+			path := fromIterStart(inner, PathQuery{Fn: ex, Target: ge, Avoid: isSelect, Explored: &r.PathsExplored})
 			if path != nil {
 				r.Bad("generation.ctx.before-evaluate", p.Pos(s.Pos()), "a generation can be evaluated without testing the context first", path...)
 			} else {
@@ -322,19 +462,21 @@ func C20(p *Prog, r *Run) {
 			r.Check(path == nil, "generation.nextepoch.at-most-once", p.Pos(s.Pos()), "at most one turnover per generation", "NextEpoch can run twice in one generation")
 			r.Check(inner.Blocks[s.Block()], "generation.nextepoch.place", p.Pos(s.Pos()), "inside the generation loop", "NextEpoch is outside the generation loop")
 			// after the evaluation
-			pre := FindPath(p, PathQuery{Fn: ex, StartEdge: [2]*ssa.BasicBlock{inner.Header, bodySucc(inner)}, Target: ne, Avoid: ge, Explored: &r.PathsExplored})
+			pre := fromIterStart(inner, PathQuery{Fn: ex, Target: ne, Avoid: ge, Explored: &r.PathsExplored})
 			r.Check(pre == nil, "generation.nextepoch.after-evaluate", p.Pos(s.Pos()), "the turnover follows the evaluation", "NextEpoch can run before the generation was evaluated")
 		}
 		// order append -> EpochEvaluated
 		for _, s := range findAll(ee) {
-			pre := FindPath(p, PathQuery{Fn: ex, StartEdge: [2]*ssa.BasicBlock{inner.Header, bodySucc(inner)}, Target: ee, Avoid: isAppendGen, NonNil: []ssa.Value{observer}, Explored: &r.PathsExplored})
+			pre := fromIterStart(inner, PathQuery{Fn: ex, Target: ee, Avoid: isAppendGen, NonNil: []ssa.Value{observer}, Explored: &r.PathsExplored})
 			if pre != nil {
 				r.Bad("generation.notified.after-append", p.Pos(s.Pos()), "EpochEvaluated can be delivered before the generation is recorded in the trial", pre...)
 			} else {
 				r.OK("generation.notified.after-append", p.Pos(s.Pos()), "the generation is recorded before the observer is notified")
 			}
 		}
-		// under Solved the iteration leaves the loop: from the true edge of a Solved test that follows the append, the inner header is unreachable
+		// under Solved no further generation starts: from the true edge of a Solved test that follows the append, no edge on
+		// which an iteration of the generation loop starts is reachable within the same trial (flag-sensitive: a `solved`
+		// flag tested by the loop condition ends the loop just like a break)
 		n := 0
 		for b := range inner.Blocks {
 			iff, ok := b.Instrs[len(b.Instrs)-1].(*ssa.If)
@@ -342,7 +484,7 @@ func C20(p *Prog, r *Run) {
 				continue
 			}
 			ct := tm.Of(iff.Cond)
-			if !(ct.Op == "field" && ct.Name == "Solved") {
+			if !(ct.Op == "field" && ct.Name == "Solved") || b.Succs[0] == b.Succs[1] {
 				continue
 			}
 			// is this test after the append?
@@ -356,7 +498,7 @@ func C20(p *Prog, r *Run) {
 				continue
 			}
 			n++
-			path := FindPath(p, PathQuery{Fn: ex, StartEdge: [2]*ssa.BasicBlock{b, b.Succs[0]}, TargetEdge: toHeader(inner.Header), AvoidEdge: toHeader(outer.Header), Explored: &r.PathsExplored})
+			path := FindPath(p, PathQuery{Fn: ex, StartEdge: [2]*ssa.BasicBlock{b, b.Succs[0]}, TargetEdge: cInner.IsStart, AvoidEdge: toHeader(outer.Header), Explored: &r.PathsExplored})
 			if path != nil {
 				r.Bad("generation.solved.leaves", p.Pos(iff.Pos()), "after a solved generation the loop continues with the next generation", path...)
 			} else {
